@@ -36,6 +36,9 @@ template whose content decides the generated term):
   legacy_to_yang / yang_to_legacy
                             M the if / elif skeleton;  T every branch test (key or any(.. for k in LIST)) and, per branch,
                               the ORDER of the calls (incl. the position of remove_namespace_context) and the wrapping
+  _convert_api_section, _convert_api_core_sections, _convert_api_extra_items
+                            M whole bodies;  T whether the caller's payload / item is deep-copied before it is converted in
+                              place, the list of converted sections
  gnpy/tools/json_io.py
   _equipment_from_json (Edfa and Transceiver other_name loops), Transceiver.__init__ (mode aliases)
                             M;  T the keys, the order of copy / pop / assignment inside the loops
@@ -1095,6 +1098,48 @@ Definition g_expand_modes (ms : list obj) : res (list obj) :=
 ''']
 
 
+def copied(node, inner_src):
+    """deepcopy(X) -> true ; X itself -> false (the caller's object is then converted in place)"""
+    if ast.unparse(node) == f'deepcopy({inner_src})':
+        return 'true'
+    if ast.unparse(node) == inner_src:
+        return 'false'
+    raise Unsupported(f'copy of {inner_src}: {ast.unparse(node)}')
+
+
+def gen_api(src, out):
+    core = match('''
+core_keys = H_keys
+return {key: yang_to_legacy(value) for key, value in api_payload.items() if key in core_keys}
+''', src.body(CLY, '_convert_api_core_sections'), '_convert_api_core_sections')
+    items = match('''
+result = []
+for item in items:
+    item_copy = H_copy
+    name = item_copy.get("name")
+    payload = {k: v for k, v in item_copy.items() if k != "name"}
+    converted = {EQPT_NMSP: yang_to_legacy(payload)} if is_eqpt else yang_to_legacy(payload)
+    result.append({"name": name, **converted})
+return result
+''', src.body(CLY, '_convert_api_extra_items'), '_convert_api_extra_items')
+    sec = match('''
+api_payload = H_copy
+converted = _convert_api_core_sections(api_payload)
+converted[SPECTRUM_NMSP] = yang_to_legacy({SPECTRUM_NMSP: api_payload.get(SPECTRUM_NMSP, [])})
+if "extra-eqpts" in api_payload:
+    converted["extra-eqpts"] = _convert_api_extra_items(api_payload["extra-eqpts"], is_eqpt=True)
+if "extra-configs" in api_payload:
+    converted["extra-configs"] = _convert_api_extra_items(api_payload["extra-configs"], is_eqpt=False)
+return converted
+''', src.body(CLY, '_convert_api_section'), '_convert_api_section')
+    out += ['(* ' + CLY + ': _convert_api_section, _convert_api_core_sections, _convert_api_extra_items (the gnpy-api:api '
+            'container is not modelled: what is tied is that the caller\'s payload is copied before it is converted, and '
+            'which sections are converted) *)',
+            f'Definition g_api_payload_copied : bool := {copied(sec["H_copy"], "json_data[API_NMSP]")}.',
+            f'Definition g_api_item_copied : bool := {copied(items["H_copy"], "item")}.',
+            f'Definition g_api_core_keys : list string := {glist(slit(k) for k in src.klist(core["H_keys"]))}.', '']
+
+
 def generate(repo=None):
     src = Src(repo or common.REPO)
     out = ['(* GENERATED on every run by harness/pygen_c18.py from gnpy/tools/yang_convert_utils.py, '
@@ -1120,6 +1165,7 @@ def generate(repo=None):
     gen_range(src, out)
     gen_dispatch(src, out)
     gen_alias(src, out)
+    gen_api(src, out)
     return '\n'.join(out) + '\n'
 
 
